@@ -4,6 +4,8 @@ use std::sync::Mutex;
 
 pub static COUNT: AtomicUsize = AtomicUsize::new(0);
 pub static LAST: Mutex<String> = Mutex::new(String::new());
+/// state of the process-wide guard at the moment the call-count verifier raised its panic (-1 = never)
+pub static LOCK_AT_VERIFY: std::sync::atomic::AtomicI64 = std::sync::atomic::AtomicI64::new(-1);
 
 pub struct UserPanic;
 
@@ -13,6 +15,9 @@ pub fn install_hook() {
         let msg = payload_str(info.payload());
         if std::env::var("VERIF_LOUD").is_ok() {
             eprintln!("PANIC: {} at {:?}", msg, info.location());
+        }
+        if msg.contains("was expected to be called") {
+            LOCK_AT_VERIFY.store(injectorpp::interface::injector::__verif_lock_state() as i64, SeqCst);
         }
         if let Ok(mut l) = LAST.lock() {
             *l = msg;
